@@ -247,6 +247,42 @@ def main(argv=None):
                 except Exception as ex:  # noqa
                     run.fail('open-ended-position-raises', 'open-ended segment: assigning/encoding/parsing raises',
                              version=v, segment=sname, index=i, exc=repr(ex))
+        # components of varies fields and of fields the tables give no datatype: component k of the text is VARIES_k and is
+        # encoded at position k, for any k (ten and more, gaps included)
+        vfields = [(sn, row[0]) for sn in sorted(lib.SEGMENTS) if S.ok_segment(lib, sn) for row in lib.SEGMENTS[sn][1]
+                   if row[1][0] == 'leaf' and row[1][2] in ('varies', None)]
+        for sn, fname in vfields[:4] + [x for x in vfields if x[1] in ('OBX_5', 'MSA_5', 'OBX_20')]:
+            i = int(fname.split('_')[1])
+            for parts in (['c%d' % k for k in range(1, 13)], ['A', '', 'C'], [''] * 10 + ['K'], ['a', '', '', 'd', '', 'f', '', '', '', 'j', 'k']):
+                stats['varies_component_texts'] = stats.get('varies_component_texts', 0) + 1
+                text = sn + F * i + C.join(parts)
+                try:
+                    back = parse_segment(text, version=v, encoding_chars=ec)
+                    out = back.to_er7(ec)
+                    kids = [(c.name, c.to_er7(ec)) for c in getattr(back, fname)[0].children]
+                    want = [('VARIES_%d' % (k + 1), p) for k, p in enumerate(parts)]
+                    named = [k for k in kids if k[0] is not None]
+                    if out != text or (named and [k for k in named if k[1]] != [w for w in want if w[1]]):
+                        run.fail('component-position-wrong', 'a component of a varies / untyped field is not kept at its position',
+                                 version=v, field=fname, component='VARIES_k', output=out, expected=text, children=kids[:14])
+                except Exception as ex:  # noqa
+                    run.fail('component-position-raises', 'parsing/encoding components of a varies / untyped field raises',
+                             version=v, field=fname, component='VARIES_k', exc=repr(ex))
+        # a declared base-datatype field that lost its datatype to a multi-component value (TOLERANT) and is valued again
+        for sn, fn in (('PID', 'PID_1'), ('EVN', 'EVN_1')):
+            if sn in lib.SEGMENTS:
+                stats['revalued_fields'] = stats.get('revalued_fields', 0) + 1
+                try:
+                    seg = Segment(sn, version=v)
+                    setattr(seg, fn, '1' + C + 'B')
+                    getattr(seg, fn)[0].value = '1' + C + C + 'Z'
+                    out = seg.to_er7(ec)
+                    if out != sn + F + '1' + C + C + 'Z':
+                        run.fail('component-position-wrong', 'a component of a field valued a second time is not kept at its position',
+                                 version=v, field=fn, component='3rd of 1^^Z', output=out, expected=sn + F + '1' + C + C + 'Z')
+                except Exception as ex:  # noqa
+                    run.fail('component-position-raises', 'valuing a field a second time raises', version=v, field=fn,
+                             component='3rd of 1^^Z', exc=repr(ex))
         # several positions of one segment assigned in ANY order each land at their own index
         import itertools
         for sname in open_segs[:6] + [s for s in ('PID', 'OBX', 'EVN') if s in lib.SEGMENTS]:
